@@ -15,7 +15,7 @@ import time
 
 import numpy as np
 
-from .. import harness, mech, smt, sym, interp
+from .. import harness, mech, smt, sym, interp, floatprobe
 from ..sym import var, const
 
 PID = "C03"
@@ -149,6 +149,27 @@ def real_update(inst, model):
     return out
 
 
+def real_update_batch(inst, model, vs, dt):
+    """float64 values of the real update_states on an array of voltages."""
+    import jax
+    jax.config.update("jax_enable_x64", True)
+    import jax.numpy as jnp
+    typ, name, gate = inst["type"], inst["mech"], inst["gate"]
+    table = mech.channels() if typ == "channel" else mech.synapses()
+    m = table[name]["cls"]()
+    defaults = m.channel_params if typ == "channel" else m.synapse_params
+    skeys = list(m.channel_states if typ == "channel" else m.synapse_states)
+    n = len(vs)
+    S = {k: jnp.full(n, float(model.get(f"s_{k}", 0.5))) for k in skeys}
+    P = {k: jnp.full(n, float(model.get(f"p_{k}", defaults[k]))) for k in defaults}
+    v = jnp.asarray(np.asarray(vs, dtype=np.float64))
+    if typ == "channel":
+        new = m.update_states(S, dt, v, P)
+    else:
+        new = m.update_states(S, dt, v, jnp.full(n, float(model.get("vpost", -65.0))), P)
+    return np.asarray(new[f"{m._name}_{gate}"])
+
+
 def judge(query, obs):
     """Does the observed float behaviour violate the clause `query`? (tolerances far above rounding)"""
     val = obs["value"]
@@ -279,7 +300,7 @@ def run_instance(inst):
     q = newq("twin_reach")
     for c in def_assume: q.add(c)
     q.t(out)
-    r = q.check(timeout=timeout)
+    r = q.check(timeout=timeout, cegar=0)
     if r.status == "unsat":
         res.setdefault("errors", []).append({"instance": inst, "error": "vacuity twin unsat: assumptions are contradictory"})
     elif r.status != "sat":
@@ -288,7 +309,7 @@ def run_instance(inst):
     q = newq("twin_sensitive")
     for c in def_assume: q.add(c)
     q.add(sym.ne(out, sym.add(ref, sym.mul(const("1/1000"), sym.sub(x, xinf)))))
-    r = q.check(timeout=timeout)
+    r = q.check(timeout=timeout, cegar=0)
     if r.status == "unsat":
         res.setdefault("errors", []).append({"instance": inst, "error": "sensitivity twin unsat: the query cannot fail"})
     elif r.status != "sat":
@@ -318,9 +339,43 @@ def run_instance(inst):
             res["inconclusive"].append({"instance": inst, "query": label, "reason": "model did not reproduce in float64 (UF spurious or rounding-level)", "model": {k: r.model[k] for k in list(r.model)[:6]}})
         else:
             res["inconclusive"].append({"instance": inst, "query": label, "reason": r.status})
+    # ---- float-vs-real consistency at solver-found critical points (DESIGN 3.6)
+    def dom(q):
+        _domain(q, b["skeys"], b["pkeys"], extra_v)
+    pts = floatprobe.critical_points([out], dom, "v", timeout=min(timeout, 10), counters=res["counters"])
+    res["counters"]["critical_points"] = len(pts)
+    worst = (0.0, None)
+    defaults = (b["mech"].channel_params if inst["type"] == "channel" else b["mech"].synapse_params)
+    for pt in pts[:16]:
+        nb = [vv for vv in floatprobe.neighbours(pt["v"]) if V_LO <= vv <= V_HI]
+        for dtv in (0.025, 1.0, 1000.0):
+            model = dict(pt); model["dt"] = dtv
+            for k in b["skeys"]: model[f"s_{k}"] = 0.3
+            got = real_update_batch(inst, model, nb, dtv)
+            for vv, g in zip(nb, got):
+                env = {"v": vv, "dt": dtv, "vpost": float(model.get("vpost", -65.0)), "dt0": dtv}
+                for k in b["skeys"]: env[f"s_{k}"] = 0.3
+                for k in b["pkeys"]: env[f"p_{k}"] = float(model.get(f"p_{k}", defaults[k]))
+                refv = floatprobe.evalmp(out, env)
+                try:
+                    rf = float(refv)
+                except Exception:
+                    rf = float("nan")
+                res["counters"]["float_probe_points"] = res["counters"].get("float_probe_points", 0) + 1
+                if not math.isfinite(rf):
+                    continue
+                err = abs(float(g) - rf) if math.isfinite(float(g)) else float("inf")
+                if err > worst[0]:
+                    worst = (err, {"v": vv, "dt": dtv, "float64": float(g), "exact": rf, "critical_v": pt["v"], "params": {k: env[f"p_{k}"] for k in b["pkeys"]}})
+    if worst[0] > 1e-7:
+        res["violations"].append({
+            "signature": {"mech": inst["mech"], "gate": inst["gate"], "query": "float_consistency"},
+            "what": f"{inst['mech']}.{inst['gate']}: float64 update deviates from the exact value of the same formula by {worst[0]:.3g} next to a solver-found critical point: {worst[1]}",
+            "replay": {"inst": inst, "query": "float_consistency", "model": worst[1]}})
+    res["counters"]["float_probe_worst_err_x1e12"] = int(min(worst[0], 1.0) * 1e12)
     res["stats"] = dict(smt.STATS)
     res["query_log"] = list(smt.QUERY_LOG)
-    res["sample"] = {"instance": inst, "update_dag_nodes": sym.size(out), "closed_form": sym.pretty(ref, 5)[:300]}
+    res["sample"] = {"instance": inst, "update_dag_nodes": sym.size(out), "closed_form": sym.pretty(ref, 5)[:300], "critical_points": [round(p_["v"], 6) for p_ in pts[:8]]}
     return res
 
 
@@ -362,6 +417,11 @@ def main():
 
 def replay(data):
     rp = data["replay"]
+    if rp.get("query") == "float_consistency":
+        r = run_instance(rp["inst"])
+        hits = [v for v in r["violations"] if v["signature"]["query"] == "float_consistency"]
+        for v in hits: print(v["what"])
+        return 1 if hits else 0
     obs = real_update(rp["inst"], rp["model"])
     bad = judge("defined" if rp["query"] == "exp_overflow" else rp["query"], obs)
     print("replay", rp["inst"], rp["query"], "observed", obs, "-> violates" if bad else "-> holds")
